@@ -103,6 +103,14 @@ Fixpoint lookup_var (i : nat) (l : list (nat * val)) : option val :=
   | (j, v) :: r => if Nat.eqb i j then Some v else lookup_var i r
   end.
 
+(* in the inert-stub world EVERY unbound name is an implicit builtin stand-in -- also a _var<i> that
+   is used before its assignment (finding D15) *)
+Definition var_value (i : nat) (l : list (nat * val)) : val :=
+  match lookup_var i l with
+  | Some v => v
+  | None => VGlobal "builtins" (var_name i)
+  end.
+
 (* a name is the imported stand-in if imported, the implicit builtin stand-in otherwise *)
 Definition lookup_name (n : string) (imps : list (string * string)) : val :=
   match assoc_str n imps with
@@ -169,10 +177,7 @@ Fixpoint eval (fuel : nat) (e : expr) (hp : list hobj) : res (val * list hobj) :
       match e with
       | EConst c => Ok (VConst c, hp)
       | EName s => Ok (lookup_name s imps, hp)
-      | EVar i => match lookup_var i vars with
-                  | Some v => Ok (v, hp)
-                  | None => Err EKey                       (* NameError *)
-                  end
+      | EVar i => Ok (var_value i vars, hp)
       | ETuple l => do '(vs, hp1) <- eval_seq go l hp; Ok (VTuple vs, hp1)
       | ENode i =>
           match nth_error ns i with
@@ -350,12 +355,9 @@ Definition exec_stmt (ns : list node) (fuel : nat) (st : stmt) (s : pst) : res p
   | SSetItemV i k e =>
       (* Python evaluates the right-hand side, then the target object, then the index *)
       do '(v, s1) <- peval ns fuel e s;
-      match lookup_var i (pvars s1) with
-      | None => Err EKey
-      | Some o =>
-          if negb (callable o) then Err EUnmodelled else
-          do '(kv, s2) <- peval ns fuel k s1; Ok (plog_add (EvSetItem o kv v) s2)
-      end
+      let o := var_value i (pvars s1) in
+      if negb (callable o) then Err EUnmodelled else
+      do '(kv, s2) <- peval ns fuel k s1; Ok (plog_add (EvSetItem o kv v) s2)
   end.
 
 Fixpoint exec_module (ns : list node) (fuel : nat) (l : list stmt) (s : pst) : res pst :=
